@@ -89,3 +89,15 @@ Theorem C03_whitened_is_form : forall Vi x y,
   whitened ROps Vi x y = wsim (list R) (fun a b => dot ROps a (matvec ROps Vi b)) x y.
 Proof. exact whitened_is_wsim. Qed.
 Print Assumptions C03_whitened_is_form.
+
+(* an RDM without length (all zero; for the correlation: constant) has similarity 0, and a stack comparison is entry-wise:
+   such an RDM in a stack cannot change any other entry *)
+Theorem C03_cosine_zero_norm : forall x y, dot ROps x x = 0 -> cosine ROps x y = 0.
+Proof. exact cosine_zero_norm_l. Qed.
+Print Assumptions C03_cosine_zero_norm.
+
+Theorem C03_stack_comparison_entrywise : forall (X : Type) (f : list R -> list R -> X) (a b : list (list R)) i j (d : X),
+  (i < length a)%nat -> (j < length b)%nat ->
+  nth j (nth i (all_pairs f a b) []) d = f (nth i a []) (nth j b []).
+Proof. exact @all_pairs_entrywise. Qed.
+Print Assumptions C03_stack_comparison_entrywise.
